@@ -2,7 +2,7 @@
    Property theorems only; proofs live in Proofs/NoGcProofs.v.  `return_exit_order` (where
    compile_typed_return emits ExitNoGc relative to the returned expression) and the constants are
    regenerated from the Rust source by tools/extractors/c13.py on every run. *)
-From Aelys Require Import Base.Tactics Extracted.NoGcConsts Model.NoGc Proofs.NoGcProofs.
+From Aelys Require Import Base.Tactics Extracted.NoGcConsts Extracted.GcRootFields Model.NoGc Proofs.NoGcProofs.
 
 (* ---- counter machine *)
 Theorem opcode_exit_undoes_enter : forall d : N, op_exit (op_enter d) = Some d.
@@ -74,6 +74,19 @@ Theorem region_safepoints_positive :
   forall (inl : bool) (P : list fn) (f : fn), f_nogc f = true ->
   forall (t : list ev) (m : cmp), path (emit_fn return_exit_order inl P f) t m -> alloc_pos 0 t.
 Proof. exact region_alloc_pos_lemma. Qed.
+
+(* ... for EVERY call site of VM::maybe_collect: the list of sites (file, enclosing function / opcode arm) is regenerated
+   from the source by C03's translator; the constructs of the model (string +, alloc(), declaration of a function,
+   declaration of a closure) are exactly that list, each is the safepoint instruction of the emission model, and the
+   in-region statement holds for it *)
+Theorem model_covers_every_safepoint_site : sites_covered = true.
+Proof. exact sites_covered_ok. Qed.
+Theorem in_region_for_every_safepoint_site :
+  Forall (fun site =>
+            exists c, site_eqb (construct_site c) site = true /\ construct_code c = KSafe /\
+              forall inl P f t m, f_nogc f = true -> path (emit_fn return_exit_order inl P f) t m -> alloc_pos 0 t)
+         GcRootFields.safepoint_sites.
+Proof. exact every_site_in_region. Qed.
 
 (* lifted through calls (executable semantics, any fuel, any call graph, inlining on or off): from the
    call of a @no_gc function until it returns or fails, EVERY safepoint -- its own and those of everything
